@@ -3717,8 +3717,25 @@ impl<'a, const HAS_CR: bool> Parser<'a, HAS_CR> {
             let mut depth = 1;
             i += 1;
             while i < self.input.len() && depth > 0 {
+                // What precedes a byte decides two readings below: a quote opens
+                // a quoted scalar only where a node can start, and a `#` opens a
+                // comment only after white space. Elsewhere both are plain-scalar
+                // content (`[it's]`), and reading them as openers ran the scan
+                // past the real closing bracket.
+                let prev = self.input[i - 1];
                 match self.input[i] {
-                    b'"' | b'\'' => {
+                    b'#' if matches!(prev, b' ' | b'\t' | b'\n' | b'\r') => {
+                        // Skip a comment: brackets inside it are not structure.
+                        while i < self.input.len() && !Self::is_break(self.input[i]) {
+                            i += 1;
+                        }
+                    }
+                    b'"' | b'\''
+                        if matches!(
+                            prev,
+                            b' ' | b'\t' | b'\n' | b'\r' | b'[' | b'{' | b',' | b':'
+                        ) =>
+                    {
                         // Skip quoted string inside the flow
                         let quote = self.input[i];
                         i += 1;
@@ -7142,6 +7159,28 @@ mod tests {
             (&b"{ k\n# c\n}"[..], "{\"k\":null}"),
             (b"{ k\n  # c\n, j: 1 }", "{\"k\":null,\"j\":1}"),
             (b"{ k\n  l\n  # c\n: 1 }", "{\"k l\":1}"),
+        ] {
+            let index = crate::yaml::YamlIndex::build(yaml).expect("should parse");
+            assert_eq!(
+                index.root(yaml).to_json_document(),
+                expected,
+                "input: {:?}",
+                core::str::from_utf8(yaml)
+            );
+        }
+    }
+
+    /// The look-ahead over a nested flow collection (is it the key of an
+    /// implicit `[..]: v` entry?) has to find the collection's real end: a
+    /// bracket inside a comment is not structure, and a quote inside a plain
+    /// scalar does not open a quoted one.
+    #[test]
+    fn flow_entry_lookahead_skips_comments_and_inner_quotes() {
+        for (yaml, expected) in [
+            (&b"[ [ 1, # ]: x\n 2 ], 98 ]"[..], "[[1,2],98]"),
+            (b"[ [it's, 'x]: y'], 2 ]", "[[\"it's\",\"x]: y\"],2]"),
+            (b"[ {a: it's}, 2 ]", "[{\"a\":\"it's\"},2]"),
+            (b"[ ['a]', b]: c ]", "[{\"\":\"c\"}]"),
         ] {
             let index = crate::yaml::YamlIndex::build(yaml).expect("should parse");
             assert_eq!(
